@@ -318,10 +318,12 @@ KINDS = ("random", "random", "random", "product", "basis", "ghz", "w")
 
 
 def swarm_config(seed):
+    import os
     rnd = Streams(seed).py("config")
+    deep = os.environ.get("SIMTT_TIER") == "thorough"
     return {
-        "max_n": rnd.choice((1, 2, 3, 4, 5, 6, 8)),
-        "max_rank": rnd.choice((1, 2, 3, 4)),
+        "max_n": rnd.choice((1, 2, 3, 4, 5, 6, 8, 10) if deep else (1, 2, 3, 4, 5, 6, 8)),
+        "max_rank": rnd.choice((1, 2, 3, 4, 6) if deep else (1, 2, 3, 4)),
         "length": rnd.choice((1, 2, 3, 5)),
         "big_p": rnd.choice((0.0, 0.05, 0.2)),
         "kinds": rnd.choice((KINDS, ("random",), ("ghz", "w", "basis"), ("product", "random"))),
